@@ -30,6 +30,7 @@ func (e *Enc) builtinCall(b *ssa.Builtin, c *ssa.CallCommon, site ssa.Instructio
 		case *types.Pointer:
 			return &Val{T: retT, L: []string{fmt.Sprint(u.Elem().Underlying().(*types.Array).Len())}}
 		case *types.Map:
+			e.guardMapOp(c.Args[0], st, pos, "map len")
 			if mapKeyOK(u) && b.Name() == "len" {
 				_, ln, _ := e.mapKeys(u)
 				t := sIte("(= "+x.term()+" 0)", "0", sSel(e.heapGet(st, ln), x.term(), "0"))
@@ -70,6 +71,7 @@ func (e *Enc) builtinCall(b *ssa.Builtin, c *ssa.CallCommon, site ssa.Instructio
 	case "delete":
 		m := c.Args[0].Type().Underlying().(*types.Map)
 		x := e.val(c.Args[0])
+		e.guardMapOp(c.Args[0], st, pos, "map delete")
 		e.frameCheckRoot(typeKey(m), x.term(), pos, st)
 		if mapKeyOK(m) {
 			k := e.val(c.Args[1]).term()
